@@ -373,6 +373,6 @@ def _pol(base, pol):
 CATALOG = {f.__name__: f for f in (Q, Q1, Q2, D, Dr, Da, K, Kd, FL3, G1, F1, R2, R3, H2, H3, X, HIn, HIa, HIs, A, Ai, T, FL)}
 
 POLICIES = ['after_entry', 'after_transition_action', 'after_exit', 'before_transition']
-for _b in (F1, R2, H2):
+for _b in (F1, R2, H2, FL):
     for _p in POLICIES:
         CATALOG['%s_%s' % (_b.__name__, _p)] = (lambda b=_b, p=_p: _pol(b, p))
